@@ -2,6 +2,12 @@
 From Sdns Require Import Common.Base Common.GoList Gen.C19 C19.WireReq.
 Open Scope Z_scope.
 
+Lemma blank_request_ok raw :
+  T_Request_raw (blank_request raw) = raw /\ T_Request_hasECS (blank_request raw) = false /\
+  T_Request_hasNSID (blank_request raw) = false /\ T_Request_hasKeepalive (blank_request raw) = false /\
+  T_Request_cookieLen (blank_request raw) = 0 /\ T_Request_hasOPT (blank_request raw) = false.
+Proof. repeat split; reflexivity. Qed.
+
 Ltac flags_done :=
   repeat split;
   match goal with
